@@ -91,15 +91,26 @@ func ExecuteSubscription(p ExecuteParams) chan *Result {
 	var resultChannel = make(chan *Result)
 	go func() {
 		defer close(resultChannel)
+		// send delivers one result to the consumer unless the context is
+		// cancelled first, so that a consumer that stopped reading cannot keep
+		// this goroutine blocked forever.
+		send := func(r *Result) bool {
+			select {
+			case resultChannel <- r:
+				return true
+			case <-p.Context.Done():
+				return false
+			}
+		}
 		defer func() {
 			if err := recover(); err != nil {
 				e, ok := err.(error)
 				if !ok {
 					return
 				}
-				resultChannel <- &Result{
+				send(&Result{
 					Errors: gqlerrors.FormatErrors(e),
-				}
+				})
 			}
 			return
 		}()
@@ -115,18 +126,18 @@ func ExecuteSubscription(p ExecuteParams) chan *Result {
 		})
 
 		if err != nil {
-			resultChannel <- &Result{
+			send(&Result{
 				Errors: gqlerrors.FormatErrors(err),
-			}
+			})
 
 			return
 		}
 
 		operationType, err := getOperationRootType(p.Schema, exeContext.Operation)
 		if err != nil {
-			resultChannel <- &Result{
+			send(&Result{
 				Errors: gqlerrors.FormatErrors(err),
-			}
+			})
 
 			return
 		}
@@ -148,9 +159,9 @@ func ExecuteSubscription(p ExecuteParams) chan *Result {
 		fieldDef := getFieldDef(p.Schema, operationType, fieldName)
 
 		if fieldDef == nil {
-			resultChannel <- &Result{
+			send(&Result{
 				Errors: gqlerrors.FormatErrors(fmt.Errorf("the subscription field %q is not defined", fieldName)),
-			}
+			})
 
 			return
 		}
@@ -158,9 +169,9 @@ func ExecuteSubscription(p ExecuteParams) chan *Result {
 		resolveFn := fieldDef.Subscribe
 
 		if resolveFn == nil {
-			resultChannel <- &Result{
+			send(&Result{
 				Errors: gqlerrors.FormatErrors(fmt.Errorf("the subscription function %q is not defined", fieldName)),
-			}
+			})
 			return
 		}
 		fieldPath := &ResponsePath{
@@ -188,17 +199,17 @@ func ExecuteSubscription(p ExecuteParams) chan *Result {
 			Context: p.Context,
 		})
 		if err != nil {
-			resultChannel <- &Result{
+			send(&Result{
 				Errors: gqlerrors.FormatErrors(err),
-			}
+			})
 
 			return
 		}
 
 		if fieldResult == nil {
-			resultChannel <- &Result{
+			send(&Result{
 				Errors: gqlerrors.FormatErrors(fmt.Errorf("no field result")),
-			}
+			})
 
 			return
 		}
@@ -216,11 +227,13 @@ func ExecuteSubscription(p ExecuteParams) chan *Result {
 					if !more {
 						return
 					}
-					resultChannel <- mapSourceToResponse(res)
+					if !send(mapSourceToResponse(res)) {
+						return
+					}
 				}
 			}
 		default:
-			resultChannel <- mapSourceToResponse(fieldResult)
+			send(mapSourceToResponse(fieldResult))
 			return
 		}
 	}()
